@@ -1496,7 +1496,13 @@ class Sim:
             self.violate("C14", "stop_raised", f"stop({n}) raised {type(e).__name__}: {e}")
             return True
         exp_ids = [t.tid for t in exp]
-        if list(got) != exp_ids:
+        alt = None
+        if any(d.state == "active" for d in pc.gathers) and any(t.early for t in running):
+            # a close is in transit: tasks cancelled before their first step (recorded finding F-EARLY) may
+            # already have been dropped from the pool's books or not - the statement does not say
+            r2 = [t for t in running if not t.early]
+            alt = [t.tid for t in (r2 if step.get("all") else r2[:max(0, n)])]
+        if list(got) != exp_ids and list(got) != alt:
             self.violate("C14", "stop_ids", f"stop({'all' if step.get('all') else n}) returned {list(got)}, expected {exp_ids}")
         by = {t.tid: t for t in running}
         for t in exp:
